@@ -10,6 +10,7 @@ lattice images when periodic).
 import itertools
 import json
 import math
+import os
 
 import numpy as np
 
@@ -78,6 +79,7 @@ BOX_KIND = {"o2.5": "ortho", "o3": "ortho", "o345": "ortho", "o2": "ortho_dyadic
 MAX_SLOTS = {"full": 2_500_000, "mid": 1_000_000, "lite": 300_000, "mini": 300_000, "tiny": 300_000, "micro": 300_000}
 
 SUB64 = [0.0, 0.5, 1.0, 2.0]
+CUBE_ROTS = geom.cube_rotations()
 L125 = geom.lattice(LATT)
 L27 = geom.lattice(SUB27)
 L64 = geom.lattice(SUB64)
@@ -180,9 +182,34 @@ def cfg_coords(cfg):
         base = STRUCT[cs[1]]
     elif cs[0] == "raw":
         base = np.array(cs[1], dtype=float)
+    elif cs[0] == "same":        # n atoms at one point: one cell holds them all
+        base = np.tile([1.0, 0.5, 2.0], (cs[1], 1))
+    elif cs[0] == "two":         # n atoms shared by two neighbouring points + one atom at the corner
+        n = cs[1]
+        base = np.array([[1.0, 0.5, 2.0]] * (n // 2) + [[1.5, 0.5, 2.0]] * (n - n // 2) + [[0.0, 0.0, 0.0]])
     else:
         raise ValueError(cs)
-    return base.reshape(-1, 3) + np.array(OFFSETS[cfg.get("off", 0)])
+    out = base.reshape(-1, 3) + np.array(OFFSETS[cfg.get("off", 0)])
+    perm = cfg.get("perm")
+    if perm == "rev":
+        out = out[::-1].copy()
+    elif perm == "roll":
+        out = np.roll(out, 5, axis=0)
+    if cfg.get("rot") is not None:
+        out = out @ np.asarray(CUBE_ROTS[cfg["rot"]], dtype=float).T
+    return out
+
+
+def cfg_box(cfg):
+    """float64 box of a configuration: optionally rotated with the system and with permuted rows (same lattice)"""
+    if cfg.get("box") is None:
+        return None
+    box = np.array(BOXES[cfg["box"]], dtype=float)
+    if cfg.get("rot") is not None:
+        box = box @ np.asarray(CUBE_ROTS[cfg["rot"]], dtype=float).T
+    if cfg.get("bperm") is not None:
+        box = box[list(cfg["bperm"])]
+    return box
 
 
 def cfg_selection(cfg, n):
@@ -200,17 +227,68 @@ def cfg_selection(cfg, n):
     if s[0] == "none":
         m = np.zeros(n, dtype=bool)
         return m, m.copy()
+    if s[0] == "flav":          # every third atom cleared, handed over in another array flavour
+        m = np.array([i % 3 != 1 for i in range(n)])
+        f = s[1]
+        if f == "ro":
+            a = m.copy()
+            a.flags.writeable = False
+        elif f == "col":        # a column of a 2-D mask
+            a = np.stack([m, ~m], axis=1)[:, 0]
+        elif f == "u8":
+            a = m.astype(np.uint8)
+        elif f == "list":
+            a = [bool(x) for x in m]
+        else:
+            raise ValueError(s)
+        return a, m
+    if s[0] == "only":          # exactly one selected atom
+        m = np.zeros(n, dtype=bool)
+        m[s[1]] = True
+        return m, m.copy()
     raise ValueError(s)
 
 
-def build_celllist(cfg):
-    """-> (CellList, coords float64, model selection mask or None, box float64 or None)"""
+COORD_FLAVOURS = ["f32", "f64", "atoms", "f32F", "f64F", "f32strided", "f32T", "f32ro", "f64ro", "i64", "i32", "list",
+                  "tuple"]
+
+
+def flavour_array(x, form):
+    """the float64 array x in another array flavour (same values)"""
+    if form in ("f32", "f64"):
+        return x.astype(np.float32 if form == "f32" else np.float64)
+    if form == "f32F":
+        return np.asfortranarray(x.astype(np.float32))
+    if form == "f64F":
+        return np.asfortranarray(x.astype(np.float64))
+    if form == "f32strided":
+        big = np.full((2 * len(x),) + x.shape[1:], 77.0, dtype=np.float32)
+        big[::2] = x
+        return big[::2]
+    if form == "f32T":          # C-contiguous (3,n) buffer seen as (n,3)
+        return np.ascontiguousarray(x.astype(np.float32).T).T
+    if form in ("f32ro", "f64ro"):
+        a = x.astype(np.float32 if form == "f32ro" else np.float64)
+        a.flags.writeable = False
+        return a
+    if form in ("i64", "i32"):
+        return np.rint(x).astype(np.int64 if form == "i64" else np.int32)
+    if form == "list":
+        return x.tolist()
+    if form == "tuple":
+        return tuple(tuple(r) for r in x.tolist())
+    raise ValueError(form)
+
+
+def build_celllist(cfg, keep=None):
+    """-> (CellList, coords float64, model selection mask or None, box float64 or None).
+    keep: optional dict that receives the very objects handed to the constructor (aliasing checks)."""
     import biotite.structure as struc
 
     coords = cfg_coords(cfg)
     n = len(coords)
     sel, msel = cfg_selection(cfg, n)
-    box = None if cfg.get("box") is None else np.array(BOXES[cfg["box"]], dtype=float)
+    box = cfg_box(cfg)
     form = cfg.get("form", "f32")
     kw = {}
     if sel is not None:
@@ -221,18 +299,25 @@ def build_celllist(cfg):
         if box is not None:
             arr.box = box
             kw["periodic"] = True
-        cl = struc.CellList(arr, cfg["cs"], **kw)
+        c = arr
     else:
-        c = coords.astype({"f32": np.float32, "f64": np.float64}[form])
+        c = flavour_array(coords, form)
         if box is not None:
             kw["periodic"] = True
-            kw["box"] = box if form == "f64" else box.astype(np.float32)
-        cl = struc.CellList(c, cfg["cs"], **kw)
+            bf = cfg.get("boxflav")
+            kw["box"] = flavour_array(box, bf) if bf else (box if form == "f64" else box.astype(np.float32))
+    if keep is not None:
+        keep.update({"coord": c, "sel": sel, "box": kw.get("box")})
+    cl = struc.CellList(c, cfg["cs"], **kw)
     return cl, coords, msel, box
 
 
 def query_points(cfg, qname):
-    return QSETS[qname] + np.array(OFFSETS[cfg.get("off", 0)])
+    q = QSETS[qname] + np.array(OFFSETS[cfg.get("off", 0)])
+    if cfg.get("rot") is not None:
+        with np.errstate(invalid="ignore"):
+            q = q @ np.asarray(CUBE_ROTS[cfg["rot"]], dtype=float).T
+    return q
 
 
 class Oracle:
@@ -253,7 +338,10 @@ class Oracle:
 
     def queries(self, qname):
         if qname not in self._q:
-            q = query_points(self.cfg, qname)
+            if qname == "atoms":       # the atom positions themselves and points half a lattice step next to them
+                q = np.concatenate([self.coords, self.coords + 0.5, self.coords - np.array([0.0, 0.5, 0.5])])
+            else:
+                q = query_points(self.cfg, qname)
             self._q[qname] = (q, self.outside(q))
         return self._q[qname]
 
@@ -416,8 +504,39 @@ def op_radius(op, nrows):
     return r, False
 
 
-def run_op(ctx, cfg, cl, orc, op, count=True):
-    """Execute one operation, compare, report.  Returns True if clean."""
+def radius_flavour(r, f, is_arr):
+    if is_arr:
+        if f == "strided":
+            big = np.zeros(2 * len(r), dtype=r.dtype)
+            big[::2] = r
+            return big[::2]
+        if f == "ro":
+            a = r.copy()
+            a.flags.writeable = False
+            return a
+        if f in ("f32", "f64", "i64", "i32"):
+            return r.astype({"f32": np.float32, "f64": np.float64, "i64": np.int64, "i32": np.int32}[f])
+        if f == "ro32":
+            a = r.astype(np.float32 if r.dtype.kind == "f" else np.int32)
+            a.flags.writeable = False
+            return a
+        raise ValueError(f)
+    if f == "npf32":
+        return np.float32(r)
+    if f == "npf64":
+        return np.float64(r)
+    if f == "npi64":
+        return np.int64(r)
+    if f == "pyint":
+        return int(r)
+    if f == "zerod":
+        return np.array(float(r))
+    raise ValueError(f)
+
+
+def run_op(ctx, cfg, cl, orc, op, count=True, hold=None):
+    """Execute one operation, compare, report.  Returns True if clean.
+    hold: optional list that receives (op, raw result) for reuse / aliasing checks."""
     m = op["m"]
     n = orc.n
     if m == "adj":
@@ -429,6 +548,9 @@ def run_op(ctx, cfg, cl, orc, op, count=True):
     nq = len(q)
     rad, is_arr = op_radius(op, nq)
     qarg = q.astype(np.float32) if op.get("qdt") == "f32" else q
+    if op.get("qflav"):
+        with np.errstate(invalid="ignore"):
+            qarg = flavour_array(q, op["qflav"])
     if m == "get":
         rr = np.asarray(rad, dtype=float)
         r2 = (rr * rr)[:, None] if is_arr else float(rr * rr)
@@ -437,6 +559,8 @@ def run_op(ctx, cfg, cl, orc, op, count=True):
         cr = np.asarray(rad, dtype=float) * cfg["cs"]
         r2 = (cr * cr)[:, None] if is_arr else float(cr * cr)
         rarg = rad.astype(np.int32 if op.get("qdt") == "f32" else np.int64) if is_arr else int(rad)
+    if op.get("rflav"):
+        rarg = radius_flavour(rarg, op["rflav"], is_arr)
     within = (d2 <= r2) & orc.sel[None, :]
     tie = ((d2 == r2) & orc.sel[None, :]) if orc.ties_either else np.zeros_like(within)
     if orc.ties_either:
@@ -455,9 +579,23 @@ def run_op(ctx, cfg, cl, orc, op, count=True):
         else:
             res = fn(qarg, rarg, as_mask=as_mask)
     except Exception as e:  # noqa: BLE001
+        if op.get("either"):            # flavour outside the documented argument types: exception or exact value
+            ctx.count("unspecified")
+            ctx.count("unspecified_refused")
+            return True
+        if op.get("qflav") or op.get("rflav"):
+            fl = "query_%s" % op["qflav"] if op.get("qflav") else "radius_%s" % op["rflav"]
+            ctx.violation("%s|raises_%s|%s" % (SITE[m], type(e).__name__, fl),
+                          "a legal array flavour raised %s: %s" % (type(e).__name__, str(e)[:200]),
+                          {"kind": "op", "cfg": cfg, "op": dict(op)}, expected="result", observed=type(e).__name__)
+            return False
         report(ctx, cfg, op, orc, "raises_%s" % type(e).__name__, q, rows, 0,
                "legal query raised %s: %s" % (type(e).__name__, str(e)[:200]), "result", type(e).__name__)
         return False
+    if op.get("either"):
+        ctx.count("unspecified")
+    if hold is not None:
+        hold.append((op, outs if single else res))
     if single:
         # normalise the per-call results into the batch form, checking the single-call shapes
         for i, o in enumerate(outs):
@@ -569,7 +707,7 @@ SITE = {"get": "get_atoms", "cells": "get_atoms_in_cells", "adj": "create_adjace
 
 
 def report(ctx, cfg, op, orc, mode, q, rows, r, what, expected, observed):
-    case = {"kind": "op", "cfg": cfg, "op": dict(op)}
+    case = {"kind": "reuse" if "reuse" in op else "op", "cfg": cfg, "op": dict(op)}
     if q is not None:
         case["row"] = int(r)
         case["query"] = [float(x) if np.isfinite(x) else repr(float(x)) for x in q[r]]
@@ -685,6 +823,12 @@ def build_class(cfg):
     s = cfg.get("sel")
     if s is not None and s[0] == "strided":
         return "selection_noncontiguous"
+    if s is not None and s[0] == "flav":
+        return "selection_%s" % s[1]
+    if cfg.get("boxflav"):
+        return "box_%s" % cfg["boxflav"]
+    if cfg.get("form", "f32") not in ("f32", "f64", "atoms"):
+        return "coord_%s" % cfg["form"]
     parts = ["np" if cfg.get("box") is None else BOX_KIND[cfg["box"]]]
     parts.append("nosel" if s is None else "sel_" + s[0])
     parts.append(cfg.get("form", "f32"))
@@ -728,8 +872,21 @@ def shards(tier, seed):
             out.append({"kind": "sel", "set": name, "box": bname, "off": 0})
     out.append({"kind": "assign", "off": off})
     out.append({"kind": "misc", "off": off})
+    # dimension audit families
+    for n in CAP_N:
+        out.append({"kind": "cap", "n": n, "part": "atoms", "off": off})
+    out.append({"kind": "cap", "part": "overflow", "off": 0})
+    out.append({"kind": "reuse", "off": off})
+    out.append({"kind": "alias", "off": off})
+    out.append({"kind": "flavour", "off": 0})
+    out.append({"kind": "orient", "what": "order", "off": off})
+    out.append({"kind": "orient", "what": "boxrows", "off": off})
+    for r in (range(24) if tier == "thorough" else [(5 * seed + k) % 24 for k in (1, 10, 19)]):
+        out.append({"kind": "orient", "what": "rot", "rot": r, "off": off})
+    out.append({"kind": "edge", "off": off})
     # heavy shards first
-    weight = {"st": 0, "pst": 0, "ms": 1, "pms": 1, "sel": 2, "assign": 3, "misc": 3}
+    weight = {"st": 0, "pst": 0, "ms": 1, "pms": 1, "sel": 2, "assign": 3, "misc": 3, "cap": 0, "reuse": 2, "alias": 2,
+              "flavour": 2, "orient": 2, "edge": 3}
     out.sort(key=lambda s: weight[s["kind"]])
     return out
 
@@ -756,6 +913,8 @@ def _run_shard(shard, ctx):
         run_assign(shard, ctx)
     elif k == "misc":
         run_misc(shard, ctx)
+    elif k in AUDIT_RUNNERS:
+        AUDIT_RUNNERS[k](shard, ctx)
     else:
         raise ValueError(shard)
 
@@ -941,6 +1100,455 @@ def run_misc(shard, ctx):
 
 
 # ---------------------------------------------------------------------------
+# dimension audit families (capacity, reuse, aliasing, array flavours, orientation, edges)
+# ---------------------------------------------------------------------------
+CAP_N = [63, 64, 65, 127, 128, 129, 255, 256, 257, 1000, 1025]
+
+
+def run_cap(shard, ctx):
+    """many atoms in one cell (cell capacity / result buffer sizes) and cell radii whose worst-case buffer length
+    (2c+1)^3 * max_cell_length leaves the int range"""
+    if shard["part"] == "overflow":
+        run_overflow(shard, ctx)
+        return
+    n = shard["n"]
+    for kind in ("same", "two"):
+        for cs in (1.5, 10.0):
+            for bname in (None, "o4") if n <= 257 else (None,):
+                cfg = {"set": [kind, n], "cs": cs, "off": shard["off"], "form": ("f32", "atoms", "f64")[n % 3]}
+                if bname:
+                    cfg["box"] = bname
+                run_cap_config(ctx, cfg, n)
+
+
+def run_cap_config(ctx, cfg, n):
+    """own short program: biotite's worst-case buffers grow with (2c+1)^3 * atoms per cell (* n rows for the adjacency
+    matrix), so cell radii stay <= 2 and the adjacency matrix with a non-zero radius is only asked for n <= 257"""
+    tag = cfg_tag(cfg)
+    if not ctx.journal(tag + "#build"):
+        return
+    cl, coords, msel, box = build_celllist(cfg)
+    orc = Oracle(cfg, coords, msel, box)
+    ml = max_cell_len(coords, box)
+    cs = cfg["cs"]
+    ops = []
+    for r in (0.0, 0.5, 1.5):
+        ops.append({"m": "get", "q": "mini", "rows": capped(cs, r, ml, "mini", False, "mini"), "r": r})
+    ops.append({"m": "get", "q": "mini", "rows": capped(cs, 0.5, ml, "mini", False, "mini"), "r": 0.5, "mask": True})
+    ops.append({"m": "get", "q": "mini", "rows": capped(cs, 1.5, ml, "mini", False, "mini"), "r": ["cyc", [0.0, 0.5, 1.5], 1]})
+    for c in (0, 1, 2):
+        ops.append({"m": "cells", "q": "mini", "rows": capped(cs, c, ml, "mini", True, "mini"), "r": c})
+    ops.append({"m": "cells", "q": "mini", "rows": capped(cs, 1, ml, "mini", True, "mini"), "r": 1, "mask": True})
+    ops.append({"m": "cells", "q": "mini", "rows": capped(cs, 2, ml, "mini", True, "mini"), "r": ["cyc", [0, 2, 1], 0]})
+    ops.append({"m": "adj", "r": 0.0})
+    if n <= 257:
+        ops.append({"m": "adj", "r": 1.5})
+    ops.append({"m": "get", "q": "mini", "rows": [0, 4, 7, 8], "r": 0.5, "single": True})
+    for op in ops:
+        if ctx.journal(tag + "#" + json.dumps(op, separators=(",", ":"))):
+            run_op(ctx, cfg, cl, orc, op)
+
+
+def _overflow_probe(args):
+    """runs in a forked child with a capped address space"""
+    import itertools as it
+    import resource
+
+    import biotite.structure as struc
+
+    kind, cs, crad, method = args
+    with open("/proc/self/statm") as f:
+        vm = int(f.read().split()[0]) * os.sysconf("SC_PAGE_SIZE")
+    lim = vm + 3 * 2 ** 30
+    resource.setrlimit(resource.RLIMIT_AS, (lim, lim))
+    if kind == "grid44":          # 85184 atoms, one per cell
+        g = np.arange(44, dtype=np.float32) * cs
+        coords = np.array(list(it.product(g, g, g)), dtype=np.float32)
+        q = np.array([[20.0 * cs] * 3])
+    else:
+        L = int(kind[1:])
+        coords = np.array([[0.0, 0, 0]] * L + [[2.0, 2, 2]], dtype=np.float32)
+        q = np.array([[0.0, 0, 0], [1.0, 1, 1]])
+    cl = struc.CellList(coords, cs)
+    try:
+        if method == "cells":
+            r = cl.get_atoms_in_cells(q, crad, as_mask=True)
+        else:
+            r = cl.get_atoms(q, crad * cs, as_mask=True)
+    except Exception as e:  # noqa: BLE001
+        return ("exc", type(e).__name__)
+    return ("ok", bool(r.all()), r.shape == (len(q), len(coords)))
+
+
+def run_overflow(shard, ctx):
+    probes = [("grid44", 1.0, 1625, "cells"), ("grid44", 1.0, 1625, "get"), ("grid44", 0.5, 1625, "cells")]
+    # few atoms: (2c+1)^3 * L wraps to a negative int (645), to a positive one that is too large to matter (813: 11.9 M
+    # slots) or to a small positive one (1625: 83 883 * L slots)
+    for kind, crad in (("L3", 645), ("L1", 813), ("L1", 1625), ("L3", 1625)):
+        for method in ("cells", "get"):
+            probes.append((kind, 0.5, crad, method))
+    for pr in probes:
+        case = {"kind": "overflow", "probe": list(pr)}
+        if not ctx.journal(case):
+            continue
+        ctx.ev(1, 1)
+        ctx.count("unspecified")
+        r = ctx.isolated(_overflow_probe, pr, timeout=120)
+        ctx.outcome(("overflow", pr, r[:2]))
+        judge_overflow(ctx, case, pr, r)
+
+
+def judge_overflow(ctx, case, pr, r):
+    site = "get_atoms_in_cells" if pr[3] == "cells" else "get_atoms"
+    cls = "buffer_length_overflow_%s" % ("grid" if pr[0] == "grid44" else "few_atoms")
+    if r[0] in ("signal", "timeout", "exit"):
+        ctx.violation("%s|process_%s|%s" % (site, r[0], cls),
+                      "a query whose worst-case result length (2c+1)^3 * max_cell_length exceeds the int range "
+                      "terminated the process (%r)" % (r,), case, expected="exact result or exception", observed=list(r))
+    elif r[0] == "exc":
+        ctx.count("unspecified_refused")
+    elif r[0] == "ok" and r[1][0] != "exc" and not (r[1][1] and r[1][2]):
+        ctx.violation("%s|wrong_result|%s" % (site, cls), "a radius covering every atom did not return every atom",
+                      case, expected="all atoms", observed=list(r[1]))
+    elif r[0] == "ok" and r[1][0] == "exc":
+        ctx.count("unspecified_refused")
+
+
+REFUSED_CALLS = [
+    ("neg_radius", lambda cl, q: cl.get_atoms(q, -1.0)),
+    ("bad_query_shape", lambda cl, q: cl.get_atoms(q[:, :2], 1.0)),
+    ("radii_length_mismatch", lambda cl, q: cl.get_atoms(q, np.array([1.0]))),
+    ("neg_cell_radius_array", lambda cl, q: cl.get_atoms_in_cells(q, np.array([-1] * len(q)))),
+    ("neg_threshold", lambda cl, q: cl.create_adjacency_matrix(-1.0)),
+]
+
+
+def run_reuse(shard, ctx):
+    """ONE cell list answers the whole program three times in different orders, with refused calls in between; every
+    answer is compared with brute force, and the arrays handed out earlier must still hold their values at the end"""
+    for name in ("border", "sparse"):
+        for bname in (None, "o3", "t2"):
+            for cs in (0.5, 1.5):
+                cfg = {"set": ["st", name], "cs": cs, "off": shard["off"]}
+                if bname:
+                    cfg["box"] = bname
+                run_reuse_cfg(ctx, cfg)
+
+
+def run_reuse_cfg(ctx, cfg):
+    tag = cfg_tag(cfg)
+    if not ctx.journal(tag + "#reuse"):
+        return
+    cl, coords, msel, box = build_celllist(cfg)
+    orc = Oracle(cfg, coords, msel, box)
+    ops = [op for op, _ in program(cfg, coords, box, "mini")]
+    # batches of identical shape but different points, alternating (a stale per-shape cache would show)
+    ra, rb = list(range(7, 47)), list(range(47, 87))
+    for r in (1.0, 2.5):
+        ops += [{"m": "get", "q": "mini", "rows": ra, "r": r}, {"m": "get", "q": "mini", "rows": rb, "r": r},
+                {"m": "get", "q": "mini", "rows": ra, "r": r, "mask": True},
+                {"m": "cells", "q": "mini", "rows": rb, "r": 1}, {"m": "cells", "q": "mini", "rows": ra, "r": 1}]
+    held = []
+    orders = [ops, ops[::-1], ops[::2] + ops[1::2]]
+    q3 = query_points(cfg, "mini")[7:10]
+    for oi, order in enumerate(orders):
+        for k, op in enumerate(order):
+            if k % 7 == 3:      # a refused call in between must not disturb the next answers
+                nm, fn = REFUSED_CALLS[(k // 7 + oi) % len(REFUSED_CALLS)]
+                ctx.count("refused")
+                try:
+                    fn(cl, q3)
+                except Exception:  # noqa: BLE001
+                    pass
+            hold = []
+            # 'reuse' marks the operation as history dependent: the violation case then names the whole sequence
+            run_op(ctx, cfg, cl, orc, dict(op, reuse=[oi, k]), hold=hold)
+            for o, res in hold:
+                arrs = res if isinstance(res, list) else [res]
+                held.append((o, arrs, [np.array(a, copy=True) for a in arrs]))
+    bad = [o for o, arrs, copies in held if any(not np.array_equal(a, c) for a, c in zip(arrs, copies))]
+    ctx.ev(len(held), len(held))
+    if bad:
+        ctx.violation("%s|earlier_result_changed|%s" % (SITE[bad[0]["m"]], orc.per),
+                      "an array returned by an earlier query changed during later queries on the same cell list",
+                      {"kind": "reuse", "cfg": cfg, "op": bad[0]}, expected="unchanged", observed="changed")
+
+
+def _snap(x):
+    """value snapshot of a constructor / query argument"""
+    if x is None:
+        return None
+    if hasattr(x, "coord"):
+        return (x.coord.tobytes(), None if x.box is None else x.box.tobytes())
+    if isinstance(x, np.ndarray):
+        return (x.tobytes(), str(x.dtype), x.shape)
+    return repr(x)
+
+
+def run_alias(shard, ctx):
+    """arguments are not modified; arrays handed out are private; a later change of the caller's arrays: either no
+    effect (private copy) or class unspecified (the unchanged tree shares float32 / AtomArray coordinates)"""
+    for name in ("border", "sparse", "g333h"):
+        for bname in (None, "o3", "t1"):
+            for form in ("f32", "f64", "atoms", "f32F", "f32strided"):
+                for selk in (None, ["clear", [0, 3]]):
+                    cfg = {"set": ["st", name], "cs": 1.0, "off": shard["off"], "form": form}
+                    if bname:
+                        cfg["box"] = bname
+                    if selk:
+                        cfg["sel"] = selk
+                    run_alias_cfg(ctx, cfg)
+
+
+def run_alias_cfg(ctx, cfg):
+    tag = cfg_tag(cfg)
+    if not ctx.journal(tag + "#alias"):
+        return
+    keep = {}
+    cl, coords, msel, box = build_celllist(cfg, keep)
+    before = {k: _snap(v) for k, v in keep.items()}
+    orc = Oracle(cfg, coords, msel, box)
+    q = query_points(cfg, "mini")[7:47].copy()
+    q32 = q.astype(np.float32)
+    rad = np.array([0.5, 1.0, 2.5, 5.0] * 10)
+    rad32 = rad.astype(np.float32)
+    crad = np.array([0, 1, 2, 3] * 10, dtype=np.int32)
+    snaps = [x.copy() for x in (q, q32, rad, rad32, crad)]
+    calls = [
+        ("get", lambda: cl.get_atoms(q, 2.0)), ("get", lambda: cl.get_atoms(q32, rad32)),
+        ("get", lambda: cl.get_atoms(q, rad, as_mask=True)), ("cells", lambda: cl.get_atoms_in_cells(q32, crad)),
+        ("cells", lambda: cl.get_atoms_in_cells(q, 2, as_mask=True)), ("adj", lambda: cl.create_adjacency_matrix(1.5)),
+        ("get", lambda: cl.get_atoms(q32[3], 2.5)),
+    ]
+    first = [fn() for _, fn in calls]
+    ctx.ev(len(calls), len(calls))
+    # 1. arguments untouched
+    changed = [k for k, v in keep.items() if _snap(v) != before[k]]
+    changed += [nm for nm, x, c in zip(("query_f64", "query_f32", "radii_f64", "radii_f32", "cell_radii"),
+                                       (q, q32, rad, rad32, crad), snaps) if not np.array_equal(x, c)]
+    if changed:
+        ctx.violation("CellList|argument_modified|%s" % changed[0],
+                      "a constructor / query argument was modified", {"kind": "alias", "cfg": cfg},
+                      expected="unchanged", observed=changed)
+        return
+    # 2. results are private: overwrite them, ask again
+    firstc = [np.array(r, copy=True) for r in first]
+    for r in first:
+        if r.size and r.flags.writeable:
+            r[...] = 0 if r.dtype != bool else ~r
+    second = [fn() for _, fn in calls]
+    ctx.ev(len(calls), len(calls))
+    for (site, _), a, b in zip(calls, firstc, second):
+        if a.shape != b.shape or not np.array_equal(a, b):
+            ctx.violation("%s|result_aliases_internal_state|%s" % (SITE[site], orc.per),
+                          "overwriting a returned array changed the answer of the next identical query",
+                          {"kind": "alias", "cfg": cfg}, expected=a.tolist()[:3], observed=b.tolist()[:3])
+            break
+    # 3. the caller changes its arrays afterwards
+    c = keep["coord"]
+    target = c.coord if hasattr(c, "coord") else c
+    if isinstance(target, np.ndarray) and target.flags.writeable:
+        target[...] = target[::-1].copy() + 1
+        if keep["sel"] is not None and isinstance(keep["sel"], np.ndarray):
+            keep["sel"][...] = ~keep["sel"]
+        ctx.journal(tag + "#alias_after_mutation")
+        third = [fn() for _, fn in calls]
+        ctx.ev(len(calls), len(calls))
+        same = all(a.shape == b.shape and np.array_equal(a, b) for a, b in zip(firstc, third))
+        if same:
+            ctx.count("caller_mutation_no_effect")
+        else:
+            # statement silent; the unchanged tree keeps a reference to float32 / AtomArray
+            # coordinates (astype(copy=False)).  Still required: well-formed answers.
+            ctx.count("unspecified")
+            ctx.count("unspecified_shared_coordinates")
+            for (site, _), b in zip(calls, third):
+                ok = (b.dtype == bool) or (b.size == 0) or (b.min() >= -1 and b.max() < len(coords))
+                if not ok:
+                    ctx.violation("%s|malformed_after_caller_mutation|%s" % (SITE[site], orc.per),
+                                  "index out of range after the caller changed its coordinate array",
+                                  {"kind": "alias", "cfg": cfg}, expected="indices in range",
+                                  observed=[int(b.min()), int(b.max())])
+                    break
+    ctx.outcome(("alias", name, bname, form, bool(selk)))
+
+
+FLAV_Q = ["f64", "f32", "f32F", "f64F", "f32strided", "f32T", "f32ro", "f64ro", "i64", "i32", "list"]
+FLAV_R_SCALAR = ["npf32", "npf64", "npi64", "pyint", "zerod"]
+FLAV_R_ARRAY = ["f32", "f64", "i64", "i32", "strided", "ro", "ro32"]
+
+
+def run_flavour(shard, ctx):
+    """the same values in every array flavour: dtypes, memory layouts, read-only, lists"""
+    cases = []
+    for name in ("g222", "g333"):               # integer coordinates: integer dtypes are possible
+        for form in COORD_FLAVOURS:
+            for bname in (None, "o3"):
+                cases.append(({"set": ["st", name], "cs": 1.0, "off": 0, "form": form, **({"box": bname} if bname else {})},
+                              form in ("list", "tuple")))
+        for sf in ("ro", "col", "u8", "list"):
+            cases.append(({"set": ["st", name], "cs": 1.5, "off": 0, "sel": ["flav", sf]}, sf in ("u8", "list")))
+        for bf in ("f32F", "f64F", "f32ro", "f64ro", "f32strided", "i64", "list"):
+            cases.append(({"set": ["st", name], "cs": 1.5, "off": 0, "box": "o345", "boxflav": bf, "form": "f64"},
+                          bf == "list"))
+    for cfg, either in cases:
+        tag = cfg_tag(cfg)
+        if not ctx.journal(tag + "#build"):
+            continue
+        ctx.ev(1, 1)
+        try:
+            cl, coords, msel, box = build_celllist(cfg)
+        except Exception as e:  # noqa: BLE001
+            if either:
+                ctx.count("unspecified")
+                ctx.count("unspecified_refused")
+            else:
+                ctx.violation("CellList|raises_%s|%s" % (type(e).__name__, build_class(cfg)),
+                              "a legal array flavour raised %s: %s" % (type(e).__name__, str(e)[:200]),
+                              {"kind": "build", "cfg": cfg}, expected="cell list", observed=type(e).__name__)
+            continue
+        if either:
+            ctx.count("unspecified")
+        orc = Oracle(cfg, coords, msel, box)
+        for op in ({"m": "get", "q": "mini", "rows": 60, "r": 1.0}, {"m": "get", "q": "mini", "rows": 60, "r": 2.5, "mask": True},
+                   {"m": "cells", "q": "mini", "rows": 60, "r": 1}, {"m": "adj", "r": 2.0},
+                   {"m": "get", "q": "mini", "rows": [0, 4, 8, 9], "r": 1.5, "single": True}):
+            run_op(ctx, cfg, cl, orc, op)
+    # query / radius flavours on ordinary cell lists (finite integer-valued query rows so that integer dtypes work)
+    for name, bname in (("g333", None), ("g222", "o3"), ("sparse", "t1")):
+        cfg = {"set": ["st", name], "cs": 1.0, "off": 0}
+        if bname:
+            cfg["box"] = bname
+        tag = cfg_tag(cfg)
+        if not ctx.journal(tag + "#build"):
+            continue
+        cl, coords, msel, box = build_celllist(cfg)
+        orc = Oracle(cfg, coords, msel, box)
+        qall = query_points(cfg, "mini")
+        introws = [i for i in range(len(qall)) if np.isfinite(qall[i]).all() and (qall[i] == np.rint(qall[i])).all()
+                   and np.abs(qall[i]).max() < 1e5][:24]
+        for qf in FLAV_Q:
+            rows = introws if qf in ("i64", "i32") else list(range(4, 44))
+            for base in ({"m": "get", "r": 1.0}, {"m": "get", "r": ["cyc", [0.0, 1.0, 2.0], 0], "mask": True},
+                         {"m": "cells", "r": 1}, {"m": "cells", "r": ["cyc", [0, 2, 1], 1], "mask": True},
+                         {"m": "get", "r": 2.0, "single": True, "short": True}):
+                op = dict(base, q="mini", rows=rows[:6] if base.get("short") else rows, qflav=qf)
+                op.pop("short", None)
+                if qf == "list":
+                    op["either"] = True          # documented type: ndarray
+                ctx.journal(tag + "#flav")
+                run_op(ctx, cfg, cl, orc, op)
+        for rf in FLAV_R_SCALAR:
+            for m, r in (("get", 2.0), ("cells", 2)):
+                if m == "cells" and rf in ("npf32", "npf64"):
+                    continue
+                op = {"m": m, "q": "mini", "rows": 40, "r": r, "rflav": rf}
+                if rf == "zerod":
+                    op["either"] = True          # a 0-d array is neither a scalar nor a (n,) array of radii
+                ctx.journal(tag + "#flav")
+                run_op(ctx, cfg, cl, orc, op)
+        for rf in FLAV_R_ARRAY:
+            for m, vals in (("get", [0.0, 1.0, 2.0, 5.0]), ("cells", [0, 3, 1, 2])):
+                if m == "cells" and rf in ("f32", "f64"):
+                    continue
+                op = {"m": m, "q": "mini", "rows": 40, "r": ["cyc", vals, 0], "rflav": rf, "mask": rf == "ro"}
+                ctx.journal(tag + "#flav")
+                run_op(ctx, cfg, cl, orc, op)
+
+
+def run_orient(shard, ctx):
+    """the answer sets do not depend on the order of the atoms, on which rows of the box carry which lattice vector,
+    or on a rigid rotation of atoms + box + queries (all 24 cube rotations keep the lattice dyadic)"""
+    what = shard["what"]
+    if what == "order":
+        for name in ("border", "sparse", "g333h", "twoclus"):
+            for perm in ("rev", "roll"):
+                for bname in (None, "o3", "t1"):
+                    for cs in CELL_SIZES:
+                        cfg = {"set": ["st", name], "cs": cs, "off": shard["off"], "perm": perm}
+                        if bname:
+                            cfg["box"] = bname
+                        run_config(ctx, cfg, "mini")
+        return
+    if what == "boxrows":
+        for name in ("border", "sparse"):
+            for bname in ("o345", "o248", "t1", "t2"):
+                for bperm in itertools.permutations(range(3)):
+                    for cs in (0.5, 1.5):
+                        cfg = {"set": ["st", name], "cs": cs, "off": shard["off"], "box": bname, "bperm": list(bperm)}
+                        run_config(ctx, cfg, "mini")
+        return
+    ri = shard["rot"]
+    for name in ("border", "sparse"):
+        for bname in (None, "o345", "t1", "t2"):
+            for cs in (0.5, 1.5):
+                cfg = {"set": ["st", name], "cs": cs, "off": shard["off"], "rot": ri}
+                if bname:
+                    cfg["box"] = bname
+                run_config(ctx, cfg, "mini")
+
+
+def run_edge(shard, ctx):
+    """empty / singleton pieces and extreme grid sizes"""
+    import biotite.structure as struc
+
+    off = shard["off"]
+    # a single atom with a selection; exactly one selected atom out of 8 / 9
+    for cfg in ([{"set": ["ms", [62]], "cs": cs, "off": off, "sel": ["clear", []]} for cs in CELL_SIZES] +
+                [{"set": ["st", nm], "cs": cs, "off": off, "sel": ["only", i]} for nm in ("g222", "border")
+                 for i in range(8) for cs in (0.5, 3.0)] +
+                [{"set": ["st", nm], "cs": cs, "off": off, "sel": ["only", i], "box": "o3"} for nm in ("g222",)
+                 for i in (0, 7) for cs in (0.5, 3.0)]):
+        run_config(ctx, cfg, "mini")
+    # extreme grids: 2 atoms 50 apart with 0.5 cells (10^6 cells), one huge cell, 0.125 cells
+    for raw, cs in (([[0, 0, 0], [50, 50, 50]], 0.5), ([[0, 0, 0], [2, 2, 2], [1, 0.5, 2]], 1e6),
+                    ([[0, 0, 0], [2, 2, 2], [1, 0.5, 2]], 0.125),
+                    # a 1-D grid of 65537 cells with atoms next to the 8-bit and 16-bit cell index borders
+                    ([[0, 0, 0], [0, 0, 127.5], [0, 0, 128], [0, 0, 300], [0, 0, 32767.5], [0, 0, 32768]], 0.5),
+                    ([[0, 0, 0], [127.5, 1, 0], [128, 1, 0], [129, 0, 0]], 0.5)):
+        cfg = {"set": ["raw", raw], "cs": cs, "off": off}
+        tag = cfg_tag(cfg)
+        if not ctx.journal(tag + "#build"):
+            continue
+        cl, coords, msel, box = build_celllist(cfg)
+        orc = Oracle(cfg, coords, msel, box)
+        for op in ({"m": "get", "q": "mini", "rows": 60, "r": 0.5}, {"m": "get", "q": "mini", "rows": 60, "r": 2.5, "mask": True},
+                   {"m": "cells", "q": "mini", "rows": 60, "r": 2}, {"m": "adj", "r": 5.0},
+                   {"m": "get", "q": "mini", "rows": [7, 8, 9], "r": 1.0, "single": True},
+                   {"m": "get", "q": "atoms", "r": 0.5}, {"m": "get", "q": "atoms", "r": 2.5, "mask": True},
+                   {"m": "cells", "q": "atoms", "r": 1}, {"m": "get", "q": "atoms", "r": 1.0, "single": True}):
+            ctx.journal(tag + "#edge")
+            run_op(ctx, cfg, cl, orc, op)
+    # documented refusals: no atoms, wrong coordinate shapes, non-finite coordinates, selection of the wrong length
+    refusals = [
+        ("empty_coord", lambda: struc.CellList(np.zeros((0, 3), dtype=np.float32), 1.0)),
+        ("coord_n2", lambda: struc.CellList(np.zeros((4, 2), dtype=np.float32), 1.0)),
+        ("coord_1d", lambda: struc.CellList(np.zeros(3, dtype=np.float32), 1.0)),
+        ("coord_nan", lambda: struc.CellList(np.array([[0, 0, np.nan], [1, 1, 1]], dtype=np.float32), 1.0)),
+        ("selection_too_short", lambda: struc.CellList(np.zeros((4, 3), dtype=np.float32), 1.0,
+                                                       selection=np.ones(3, dtype=bool))),
+        ("periodic_without_box", lambda: struc.CellList(np.zeros((4, 3), dtype=np.float32), 1.0, periodic=True)),
+        ("box_nan", lambda: struc.CellList(np.zeros((4, 3), dtype=np.float32), 1.0, periodic=True,
+                                           box=np.full((3, 3), np.nan))),
+    ]
+    for nm, fn in refusals:
+        ctx.ev(1, 1)
+        ctx.count("refused")
+        if not ctx.journal(json.dumps({"misc": "edge_" + nm})):
+            continue
+        try:
+            fn()
+            ctx.violation("CellList|accepted|%s" % nm, "a documented refusal did not happen",
+                          {"kind": "misc", "what": nm, "off": off}, "exception", "returned")
+        except Exception:  # noqa: BLE001
+            pass
+
+
+AUDIT_RUNNERS = {"cap": run_cap, "reuse": run_reuse, "alias": run_alias, "flavour": run_flavour, "orient": run_orient,
+                 "edge": run_edge}
+
+
+# ---------------------------------------------------------------------------
 # replay / crash classes
 # ---------------------------------------------------------------------------
 def crash_class(case):
@@ -950,7 +1558,10 @@ def crash_class(case):
             cfg = json.loads(a)
             if "misc" in cfg:
                 return "misc|" + str(cfg["misc"])
-            what = b if b in ("build", "assign", "either_build") else SITE.get(json.loads(b)["m"], "?")
+            if cfg.get("kind") == "overflow":
+                return "overflow|" + "|".join(str(x) for x in cfg["probe"])
+            known = ("build", "assign", "either_build", "reuse", "alias", "alias_after_mutation", "flav", "edge")
+            what = b if b in known else SITE.get(json.loads(b)["m"], "?")
             return "%s|%s" % (what, build_class(cfg))
     except Exception:  # noqa: BLE001
         pass
@@ -961,15 +1572,36 @@ def replay(case, ctx):
     if isinstance(case, str):
         a, _, b = case.partition("#")
         cfg = json.loads(a)
-        if "misc" in cfg:
-            run_misc({"off": 0}, ctx)
-            return
-        if b in ("build", "either_build", "assign"):
+        if cfg.get("kind") == "overflow":
+            case = cfg
+        elif "misc" in cfg:
+            case = {"kind": "misc", "what": str(cfg["misc"]).replace("edge_", ""), "off": 0}
+        elif b == "reuse":
+            case = {"kind": "reuse", "cfg": cfg}
+        elif b.startswith("alias"):
+            case = {"kind": "alias", "cfg": cfg}
+        elif b in ("build", "either_build", "assign", "flav", "edge"):
             case = {"kind": "build", "cfg": cfg}
         else:
             case = {"kind": "op", "cfg": cfg, "op": json.loads(b)}
     if case["kind"] == "misc":
-        run_misc({"off": case.get("off", 0)}, ctx)
+        if str(case.get("what", "")) in ("empty_coord", "coord_n2", "coord_1d", "coord_nan", "selection_too_short",
+                                         "periodic_without_box", "box_nan"):
+            run_edge({"off": case.get("off", 0)}, ctx)
+        else:
+            run_misc({"off": case.get("off", 0)}, ctx)
+        return
+    if case["kind"] == "reuse":
+        with np.errstate(invalid="ignore", over="ignore"):
+            run_reuse_cfg(ctx, case["cfg"])
+        return
+    if case["kind"] == "alias":
+        with np.errstate(invalid="ignore", over="ignore"):
+            run_alias_cfg(ctx, case["cfg"])
+        return
+    if case["kind"] == "overflow":
+        pr = tuple(case["probe"])
+        judge_overflow(ctx, case, pr, ctx.isolated(_overflow_probe, pr, timeout=120))
         return
     cfg = case["cfg"]
     if case["kind"] == "build":
